@@ -67,7 +67,14 @@ class Recorder:
 
     def __init__(self):
         self.real_AES = aes_mod.AES
-        self.real_grb = aes_mod.get_random_bytes
+        # (the name may be gone if the module draws its nonces from somewhere else: then no draw is ever recorded, which
+        # the nonce-discipline oracle reports; the stand-in is installed all the same)
+        self.had_grb = hasattr(aes_mod, 'get_random_bytes')
+        if self.had_grb:
+            self.real_grb = aes_mod.get_random_bytes
+        else:
+            from Crypto.Random import get_random_bytes as _grb
+            self.real_grb = _grb
         self.clear()
 
     def clear(self):
@@ -107,7 +114,10 @@ class Recorder:
 
     def __exit__(self, *a):
         aes_mod.AES = self.real_AES
-        aes_mod.get_random_bytes = self.real_grb
+        if self.had_grb:
+            aes_mod.get_random_bytes = self.real_grb
+        elif hasattr(aes_mod, 'get_random_bytes'):
+            del aes_mod.get_random_bytes
 
 
 # --------------------------------------------------------------------------
